@@ -238,7 +238,10 @@ impl<'a> G<'a> {
                         _ => format!("(drop (memory.atomic.notify {} (i32.const 1)))", a),
                     }
                 }
-                22 if p.mm && self.has_mem2 => match self.k(4) {
+                22 if p.mm && self.has_mem2 => match self.k(if p.bulk || p.rt || p.gc || p.eh { 6 } else { 4 }) {
+                    // copies BETWEEN the two memories ($mem may be 64-bit, $mem2 never is: the operand types then differ per memory)
+                    4 => format!("(memory.copy $mem2 $mem (i32.const 0) {} (i32.const 4))", self.addr()),
+                    5 => format!("(memory.copy $mem $mem2 {} (i32.const 0) (i32.const 4))", self.addr()),
                     0 => format!("(i32.store $mem2 (i32.const 0) {})", self.e_i32(1)),
                     1 => "(drop (memory.size $mem2))".into(),
                     2 => "(drop (memory.grow $mem2 (i32.const 0)))".into(),
